@@ -851,8 +851,10 @@ func (c *c08Run) pair(v cty.Value, t cty.Type, deep bool) {
 			c.fail("unknown_null_sound", "shape:"+c08Kind(v.Type())+">"+c08Kind(t), "unknown / null input did not convert to unknown / null", v, t, c08Outcome(out))
 		}
 	}
-	// marks are kept (a C04 clause, evaluated here because conversions rebuild values)
-	if !c08HasObject(t) {
+	// marks are kept (a C04 clause, evaluated here because conversions rebuild values;
+	// regression check of the repaired loss of the marks of null elements).  Attributes
+	// that a conversion drops take their marks with them, so object types are left out.
+	if !c08HasObject(t) && !c08HasObject(r.Type()) {
 		_, vm := v.UnmarkDeep()
 		_, rm := r.UnmarkDeep()
 		for m := range vm {
